@@ -1517,7 +1517,7 @@ class Quantity:
     def root(self, degree: int) -> "Quantity":
         """Returns the nth root of this Quantity"""
         if degree == 0:
-            return 1 * One
+            return Quantity(type(self.magnitude)(1), One)
         return Quantity(_pow(self.magnitude, (1 / degree)), self.unit.root(degree))
 
     def __neg__(self) -> "Quantity":
